@@ -63,6 +63,22 @@ type rtScen struct {
 	updates    int // runtime descriptor updates submitted so far
 	wantRtGov  bool
 	missPct    uint8 // MaxMissedProposalsPercent
+
+	cur      common.Namespace   // the runtime the commitment builders work on
+	extra    []common.Namespace // further runtimes (one worker each) registered at once, in-messages enabled
+	maxIn    map[common.Namespace]uint32
+	inMsgs   bool // committed in-message counts / hashes vary
+	inCache  map[string]inPlan
+	extraRnd map[common.Namespace]uint64 // last round of an extra runtime a commitment was sent for
+}
+
+// inPlan is what a round's commitments claim about the incoming messages.
+type inPlan struct {
+	count    uint32
+	h        hash.Hash
+	own      uint64 // own queue size when the plan was made
+	accessor bool   // the hash is the hash of what the queue accessor returned for that count
+	tag      string
 }
 
 func rtKnobs(k *knobs) {
@@ -116,6 +132,17 @@ func (w *world) rtInit() {
 	// runtime governance later (then only the runtime itself -- a message -- can update it)
 	s.rtModel = registry.GovernanceEntity
 	s.wantRtGov = r.Chance(35)
+	s.cur = s.id
+	s.maxIn = map[common.Namespace]uint32{s.id: uint32(2 + r.Intn(3))}
+	s.inCache, s.extraRnd = map[string]inPlan{}, map[common.Namespace]uint64{}
+	if w.d.Script == "" || w.d.Script == scriptRtInMsgs {
+		s.inMsgs = true
+		for i := 0; i < 1+r.Intn(2); i++ {
+			id := common.NewTestNamespaceFromSeed([]byte(fmt.Sprintf("verif/c10/%d/rt-extra-%d", w.d.HSeed, i)), common.NamespaceTest)
+			s.extra = append(s.extra, id)
+			s.maxIn[id] = uint32(2 + r.Intn(3))
+		}
+	}
 	if w.d.Script == scriptRtSlashReward {
 		// deterministic: 2 workers + 1 backup, all nodes of ONE entity whose commission is 100 %,
 		// incorrect-results penalty larger than the entity's escrow
@@ -162,6 +189,24 @@ func rtMutate(doc *genesis.Document) {
 	doc.RootHash.Parameters.GasCosts = transaction.Costs{roothash.GasOpSubmitMsg: 1500, roothash.GasOpComputeCommit: 1800, roothash.GasOpEvidence: 1900}
 }
 
+// rtExtraDescriptor: a second/third compute runtime with ONE executor worker (a scheduler
+// commitment finalizes the round in the same block) and incoming messages enabled.
+func (w *world) rtExtraDescriptor(id common.Namespace) *registry.Runtime {
+	d := w.rtDescriptor()
+	d.ID = id
+	d.GovernanceModel = registry.GovernanceEntity
+	d.Executor = registry.ExecutorParameters{GroupSize: 1, GroupBackupSize: 0, RoundTimeout: 5, MaxMessages: 32}
+	d.TxnScheduler.MaxInMessages = w.rt.maxIn[id]
+	d.Constraints = map[scheduler.CommitteeKind]map[scheduler.Role]registry.SchedulingConstraints{
+		scheduler.KindComputeExecutor: {
+			scheduler.RoleWorker:       {MinPoolSize: &registry.MinPoolSizeConstraint{Limit: 1}},
+			scheduler.RoleBackupWorker: {MinPoolSize: &registry.MinPoolSizeConstraint{Limit: 0}},
+		},
+	}
+	d.Staking.Slashing = nil
+	return d
+}
+
 func (w *world) rtDescriptor() *registry.Runtime {
 	s := w.rt
 	rt := &registry.Runtime{
@@ -173,7 +218,7 @@ func (w *world) rtDescriptor() *registry.Runtime {
 			AllowedStragglers: s.stragglers, MinLiveRoundsForEvaluation: s.liveEval, MinLiveRoundsPercent: s.livePct, MaxLivenessFailures: s.maxFails, MaxMissedProposalsPercent: s.missPct},
 		TxnScheduler: registry.TxnSchedulerParameters{
 			BatchFlushTimeout: time.Second, MaxBatchSize: 1, MaxBatchSizeBytes: 1024, ProposerTimeout: 2 * time.Second,
-			MaxInMessages: 2,
+			MaxInMessages: s.maxIn[s.id],
 		},
 		AdmissionPolicy: registry.RuntimeAdmissionPolicy{AnyNode: &registry.AnyNodeRuntimeAdmissionPolicy{}},
 		Constraints: map[scheduler.CommitteeKind]map[scheduler.Role]registry.SchedulingConstraints{
@@ -199,8 +244,78 @@ func (w *world) rtDescriptor() *registry.Runtime {
 	return rt
 }
 
-// rtState reads the runtime state on the primary replica (nil before registration).
-func (w *world) rtState() *roothash.RuntimeState {
+// rtState reads the state of the primary runtime.
+func (w *world) rtState() *roothash.RuntimeState { return w.rtStateOf(w.rt.id) }
+
+// rtQueue returns (queue size, first [limit] messages through the node's queue accessor).
+func (w *world) rtQueue(id common.Namespace, limit uint32) (size uint64, msgs []*message.IncomingMessage) {
+	defer func() { _ = recover() }()
+	ctx := context.Background()
+	ist, err := abciAPI.NewImmutableStateAt(ctx, w.props[0].Srv.State(), 0)
+	if err != nil {
+		return 0, nil
+	}
+	defer ist.Close()
+	rs := roothashState.NewImmutableState(ist)
+	if meta, err := rs.IncomingMessageQueueMeta(ctx, id); err == nil && meta != nil {
+		size = uint64(meta.Size)
+	}
+	if limit > 0 {
+		msgs, _ = rs.IncomingMessageQueue(ctx, id, 0, limit)
+	}
+	return size, msgs
+}
+
+// rtInPlan decides (once per runtime and round, so that all commitments of a round agree) the
+// in-message count and hash the committee commits to: 0, the own queue size, one more, own +
+// the other runtimes' queues, or a huge count -- with the hash of what the queue ACCESSOR
+// returns for that count (what honest nodes do), or a hash that cannot match.
+func (w *world) rtInPlan(id common.Namespace, round uint64) inPlan {
+	s := w.rt
+	key := fmt.Sprintf("%x/%d", id[:], round)
+	if p, ok := s.inCache[key]; ok {
+		return p
+	}
+	var p inPlan
+	p.h.Empty()
+	if s.inMsgs {
+		r := prng.New(w.d.HSeed*131 + round*7907 + uint64(id[31]))
+		own, _ := w.rtQueue(id, 0)
+		other := uint64(0)
+		for _, o := range append([]common.Namespace{s.id}, s.extra...) {
+			if o != id {
+				sz, _ := w.rtQueue(o, 0)
+				other += sz
+			}
+		}
+		p.own = own
+		switch r.Intn(6) {
+		case 0:
+			p.count, p.tag = 0, "0"
+		case 1, 2:
+			p.count, p.tag = uint32(own), "own queue size"
+		case 3:
+			p.count, p.tag = uint32(own+1), "own+1"
+		case 4:
+			p.count, p.tag = uint32(own+other), "own+other runtimes' queues"
+		default:
+			p.count, p.tag = 1_000_000, "huge"
+		}
+		_, msgs := w.rtQueue(id, p.count)
+		p.h = message.InMessagesHash(msgs)
+		p.accessor = true
+		if r.Chance(15) {
+			p.h = hash.NewFromBytes([]byte("not the hash of any queue prefix"))
+			p.accessor = false
+			p.tag += ", wrong hash"
+		}
+	}
+	s.inCache[key] = p
+	return p
+}
+
+// rtStateOf reads a runtime's state on the primary replica (nil before registration).
+func (w *world) rtStateOf(id common.Namespace) *roothash.RuntimeState {
 	defer func() { _ = recover() }()
 	ctx := context.Background()
 	ist, err := abciAPI.NewImmutableStateAt(ctx, w.props[0].Srv.State(), 0)
@@ -208,7 +323,7 @@ func (w *world) rtState() *roothash.RuntimeState {
 		return nil
 	}
 	defer ist.Close()
-	st, err := roothashState.NewImmutableState(ist).RuntimeState(ctx, w.rt.id)
+	st, err := roothashState.NewImmutableState(ist).RuntimeState(ctx, id)
 	if err != nil {
 		return nil
 	}
@@ -229,12 +344,19 @@ func (w *world) rtNode(id signature.PublicKey) *muxdrv.Validator {
 func (w *world) rtCommit(blk *block.Block, sched signature.PublicKey, n *muxdrv.Validator, variant int, failure commitment.ExecutorCommitmentFailure, roundDelta int64, badPrev bool) (*commitment.ExecutorCommitment, error) {
 	nb := block.NewEmptyBlock(blk, 1, block.Normal)
 	var rmsgs []message.Message
-	if variant == 0 || variant == 1 || variant == 2 {
-		rmsgs = w.rtMsgs(nb.Header.Round) // every vote on the scheduler's batch carries its messages hash
-	}
-	msgs := message.MessagesHash(rmsgs)
 	var empty hash.Hash
 	empty.Empty()
+	inCount := uint32(0)
+	if variant == 0 || variant == 1 || variant == 2 {
+		if w.rt.cur == w.rt.id {
+			rmsgs = w.rtMsgs(nb.Header.Round) // every vote on the scheduler's batch carries its messages hash
+		}
+		if roundDelta == 0 && !badPrev {
+			pl := w.rtInPlan(w.rt.cur, nb.Header.Round)
+			empty, inCount = pl.h, pl.count
+		}
+	}
+	msgs := message.MessagesHash(rmsgs)
 	io := hash.NewFromBytes([]byte(fmt.Sprintf("io/%d/%d", nb.Header.Round, variant)))
 	sr := hash.NewFromBytes([]byte(fmt.Sprintf("state/%d/%d", nb.Header.Round, variant)))
 	ec := commitment.ExecutorCommitment{
@@ -255,6 +377,7 @@ func (w *world) rtCommit(blk *block.Block, sched signature.PublicKey, n *muxdrv.
 		ec.Header.Header.StateRoot = &sr
 		ec.Header.Header.MessagesHash = &msgs
 		ec.Header.Header.InMessagesHash = &empty
+		ec.Header.Header.InMessagesCount = inCount
 	} else {
 		ec.Header.Failure = failure
 	}
@@ -262,7 +385,7 @@ func (w *world) rtCommit(blk *block.Block, sched signature.PublicKey, n *muxdrv.
 		ec.Messages = rmsgs // only the scheduler includes the messages themselves
 		w.count(fmt.Sprintf("rt-msgs/scheduler commit with %d runtime messages", len(rmsgs)))
 	}
-	if err := ec.Sign(n.Node.Signer, w.rt.id); err != nil {
+	if err := ec.Sign(n.Node.Signer, w.rt.cur); err != nil {
 		return nil, err
 	}
 	return &ec, nil
@@ -318,7 +441,7 @@ func (w *world) rtCommitTx(local map[staking.Address]uint64, signer *muxdrv.Vali
 			cs = append(cs, *e)
 		}
 	}
-	tx := roothash.NewExecutorCommitTx(w.nextNonce(signer.Node, local), muxdrv.Fee(0, 4*muxdrv.DefaultGas), w.rt.id, cs)
+	tx := roothash.NewExecutorCommitTx(w.nextNonce(signer.Node, local), muxdrv.Fee(0, 4*muxdrv.DefaultGas), w.rt.cur, cs)
 	return genTx{raw: muxdrv.Sign(signer.Node, tx), kind: kind}
 }
 
@@ -327,14 +450,83 @@ func (w *world) rtRegisterNodes(local map[staking.Address]uint64, expiration uin
 	for _, cn := range w.rt.nodes {
 		nd := muxdrv.NodeDescriptor(cn, expiration, node.RoleComputeWorker)
 		nd.Runtimes = []*node.Runtime{{ID: w.rt.id}}
+		for _, id := range w.rt.extra {
+			nd.Runtimes = append(nd.Runtimes, &node.Runtime{ID: id})
+		}
 		tx := muxdrv.TxRegisterNode(w.nextNonce(cn.Node, local), muxdrv.Fee(0, 4*muxdrv.DefaultGas), cn, nd)
 		out = append(out, genTx{raw: muxdrv.Sign(cn.Node, tx), kind: "rt:register compute node"})
 	}
 	return out
 }
 
-// roothashBlock plans block b of a roothash history.
+// roothashBlock plans block b of a roothash history: the primary runtime's traffic, then the
+// in-message traffic to every runtime and the extra runtimes' rounds.
 func (w *world) roothashBlock(b int) *blockPlan {
+	w.rt.cur = w.rt.id
+	bp, local := w.roothashPrimary(b)
+	if b > 2 && len(w.rt.extra) > 0 {
+		w.rtExtras(bp, local)
+	}
+	w.rt.cur = w.rt.id
+	return bp
+}
+
+const scriptRtInMsgs = "rt-inmsgs"
+
+// rtExtras: SubmitMsg traffic to all runtimes (valid, below the minimum fee, to a full queue) and
+// rounds of the one-worker runtimes, each finalized while the other runtimes still hold messages.
+func (w *world) rtExtras(bp *blockPlan, local map[staking.Address]uint64) {
+	r, g, s := w.rng, w.g, w.rt
+	all := append([]common.Namespace{s.id}, s.extra...)
+	scripted := w.d.Script == scriptRtInMsgs
+	// rounds of the extra runtimes first (their commitments see the queues of the previous block)
+	for _, id := range s.extra {
+		st := w.rtStateOf(id)
+		if st == nil || st.Suspended || st.Committee == nil || st.CommitmentPool == nil {
+			continue
+		}
+		if !scripted && !r.Chance(55) {
+			continue
+		}
+		round := st.LastBlock.Header.Round + 1
+		schedM, ok := st.Committee.Scheduler(round, 0)
+		if !ok {
+			continue
+		}
+		sched := w.rtNode(schedM.PublicKey)
+		if sched == nil {
+			continue
+		}
+		s.cur = id
+		if ec, err := w.rtCommit(st.LastBlock, sched.Node.Public(), sched, 0, commitment.FailureNone, 0, false); err == nil {
+			pl := w.rtInPlan(id, round)
+			bp.txs = append(bp.txs, w.rtCommitTx(local, sched, "rt:extra runtime commit (in-msgs "+pl.tag+")", ec))
+			w.count("rt-inmsgs/commit claims " + pl.tag)
+			bp.inRounds = append(bp.inRounds, inRound{id: id, round: round, plan: pl, idx: len(bp.txs) - 1})
+		}
+		s.cur = s.id
+	}
+	// incoming messages
+	n := r.Intn(4)
+	if scripted {
+		n = 3
+	}
+	for i := 0; i < n; i++ {
+		id := all[r.Intn(len(all))]
+		a := g.Accounts[1+r.Intn(3)]
+		fee := []uint64{100, 100, 150, 99}[r.Intn(4)]
+		if scripted {
+			id, fee = all[i%len(all)], 100
+		}
+		tx := roothash.NewSubmitMsgTx(w.nextNonce(a.Key, local), muxdrv.Fee(uint64(r.Intn(60)), 4*muxdrv.DefaultGas),
+			&roothash.SubmitMsg{ID: id, Tag: uint64(r.Intn(9)), Fee: qU(fee), Tokens: qU(uint64(r.Intn(3000))), Data: r.Bytes(r.Intn(40))})
+		bp.txs = append(bp.txs, genTx{raw: muxdrv.Sign(a.Key, tx), kind: "rt:submit in-message"})
+		bp.inSubmits = append(bp.inSubmits, id)
+	}
+}
+
+// roothashPrimary plans the primary runtime's part of block b.
+func (w *world) roothashPrimary(b int) (*blockPlan, map[staking.Address]uint64) {
 	r, g, s := w.rng, w.g, w.rt
 	scripted := w.d.Script == scriptRtSlashReward || w.d.Script == scriptRtSuspendTimeout
 	bp := &blockPlan{proposer: r.Intn(len(w.props))}
@@ -353,6 +545,9 @@ func (w *world) roothashBlock(b int) *blockPlan {
 	switch b {
 	case 0:
 		bp.txs = append(bp.txs, genTx{raw: muxdrv.Sign(v0.Entity, registry.NewRegisterRuntimeTx(w.nextNonce(v0.Entity, local), big4, w.rtDescriptor())), kind: "rt:register runtime"})
+		for _, id := range s.extra {
+			bp.txs = append(bp.txs, genTx{raw: muxdrv.Sign(v0.Entity, registry.NewRegisterRuntimeTx(w.nextNonce(v0.Entity, local), big4, w.rtExtraDescriptor(id))), kind: "rt:register extra runtime"})
+		}
 		ids := []signature.PublicKey{v0.Node.Public()}
 		for i, cn := range s.nodes {
 			if !s.own[i] {
@@ -369,7 +564,7 @@ func (w *world) roothashBlock(b int) *blockPlan {
 		}
 		tx := staking.NewTransferTx(w.nextNonce(rich.Key, local), muxdrv.Fee(5, muxdrv.DefaultGas), &staking.Transfer{To: staking.NewRuntimeAddress(s.id), Amount: qU(uint64(2000 + r.Intn(40_000)))})
 		bp.txs = append(bp.txs, genTx{raw: muxdrv.Sign(rich.Key, tx), kind: "rt:fund runtime account"})
-		return bp
+		return bp, local
 	case 1:
 		for i, cn := range s.nodes {
 			if s.own[i] {
@@ -377,10 +572,10 @@ func (w *world) roothashBlock(b int) *blockPlan {
 				bp.txs = append(bp.txs, genTx{raw: muxdrv.Sign(cn.Entity, muxdrv.TxRegisterEntity(w.nextNonce(cn.Entity, local), big4, cn.Entity, []signature.PublicKey{cn.Node.Public()})), kind: "rt:register node owner entity"})
 			}
 		}
-		return bp
+		return bp, local
 	case 2:
 		bp.txs = append(bp.txs, w.rtRegisterNodes(local, s.expire)...)
-		return bp
+		return bp, local
 	}
 
 	st := w.rtState()
@@ -419,16 +614,16 @@ func (w *world) roothashBlock(b int) *blockPlan {
 				}
 			}
 		}
-		return bp
+		return bp, local
 	}
 	if scripted {
 		if st == nil || st.Suspended || st.Committee == nil || st.CommitmentPool == nil {
-			return bp
+			return bp, local
 		}
 		round := st.LastBlock.Header.Round + 1
 		schedM, ok := st.Committee.Scheduler(round, 0)
 		if !ok {
-			return bp
+			return bp, local
 		}
 		sched := w.rtNode(schedM.PublicKey)
 		for _, m := range st.Committee.Members {
@@ -457,7 +652,7 @@ func (w *world) roothashBlock(b int) *blockPlan {
 				bp.txs[0], bp.txs[i] = bp.txs[i], bp.txs[0]
 			}
 		}
-		return bp
+		return bp, local
 	}
 
 	// background load: a fee-paying transfer now and then, staking messages to the runtime
@@ -469,6 +664,7 @@ func (w *world) roothashBlock(b int) *blockPlan {
 		a := g.Accounts[2]
 		tx := roothash.NewSubmitMsgTx(w.nextNonce(a.Key, local), muxdrv.Fee(uint64(r.Intn(60)), 4*muxdrv.DefaultGas), &roothash.SubmitMsg{ID: s.id, Fee: qU(100), Tokens: qU(uint64(r.Intn(3000))), Data: []byte("in")})
 		bp.txs = append(bp.txs, genTx{raw: muxdrv.Sign(a.Key, tx), kind: "rt:submit in-message"})
+		bp.inSubmits = append(bp.inSubmits, s.id)
 	}
 	if st != nil && st.Runtime != nil {
 		s.rtModel = st.Runtime.GovernanceModel
@@ -508,7 +704,7 @@ func (w *world) roothashBlock(b int) *blockPlan {
 				bp.txs = append(bp.txs, w.rtCommitTx(local, n, "rt:commit to suspended/idle runtime", ec))
 			}
 		}
-		return bp
+		return bp, local
 	}
 
 	com := st.Committee
@@ -527,11 +723,11 @@ func (w *world) roothashBlock(b int) *blockPlan {
 	}
 	schedM, ok := com.Scheduler(round, 0)
 	if !ok || len(workers) == 0 {
-		return bp
+		return bp, local
 	}
 	sched := w.rtNode(schedM.PublicKey)
 	if sched == nil {
-		return bp
+		return bp, local
 	}
 	schedID := sched.Node.Public()
 	var others []*muxdrv.Validator
@@ -557,7 +753,7 @@ func (w *world) roothashBlock(b int) *blockPlan {
 				bp.txs = append(bp.txs, w.rtCommitTx(local, n, "rt:backup worker commit", mk(n, r.Intn(2), commitment.FailureNone)))
 			}
 		}
-		return bp
+		return bp, local
 	}
 
 	switch x := r.Intn(100); {
@@ -643,5 +839,47 @@ func (w *world) roothashBlock(b int) *blockPlan {
 			bp.txs = append(bp.txs, w.rtCommitTx(local, n, "rt:worker commit (agrees)", mk(n, 0, commitment.FailureNone)))
 		}
 	}
-	return bp
+	return bp, local
+}
+
+// observeInMsgs records, for every one-worker runtime round committed in this block, the queue
+// handling of its finalization: queue size at EndBlock, committed count, whether the committed
+// hash can match -> new queue size or a failed round.
+func (w *world) observeInMsgs(h int64, bp *blockPlan, res *muxdrv.BlockResult) {
+	succ := map[common.Namespace]uint64{}
+	k := 0
+	for i, t := range bp.txs {
+		if t.kind != "rt:submit in-message" {
+			continue
+		}
+		if k < len(bp.inSubmits) && i < len(res.TxResults) && res.TxResults[i].Code == 0 {
+			succ[bp.inSubmits[k]]++
+		}
+		k++
+	}
+	for _, ir := range bp.inRounds {
+		if ir.idx >= len(res.TxResults) || res.TxResults[ir.idx].Code != 0 {
+			w.count("kskip/in-msgs: the commitment transaction failed")
+			continue
+		}
+		st := w.rtStateOf(ir.id)
+		if st == nil || st.LastBlock.Header.Round != ir.round {
+			w.count("kskip/in-msgs: round not finalized in this block")
+			continue
+		}
+		size := ir.plan.own + succ[ir.id]
+		hashOK := ir.plan.accessor && (uint64(ir.plan.count) <= ir.plan.own || succ[ir.id] == 0)
+		newSize, _ := w.rtQueue(ir.id, 0)
+		out := fmt.Sprintf("OOne %d", newSize)
+		switch st.LastBlock.Header.HeaderType {
+		case block.Normal:
+			w.count("rt-inmsgs/round finalized")
+		case block.RoundFailed:
+			out = "ONone"
+			w.count("rt-inmsgs/round failed")
+		default:
+			continue
+		}
+		w.emit(h, "in_msgs", fmt.Sprintf("CInMsg %d %d %s", size, ir.plan.count, cbool(hashOK)), out, size == 0 && ir.plan.count == 0)
+	}
 }
